@@ -261,6 +261,7 @@ class Interp:
         if isinstance(e, dict) and 'f' in e:
             f = e['f']
             if v[0] == 'elem':
+                p.ev('elem_field', col=v[1], off=v[2], idx=v[3], f=f)
                 return ('elemf', v[1], v[2], v[3], f)
             if v[0] == 'tuple':
                 return v[1][f] if f < len(v[1]) else ('unk', 'tuplef')
